@@ -326,4 +326,11 @@ def namesNodup : EnumDesc → Bool
   | (nm, _) :: rest => !rest.any (fun p => p.1 == nm) && namesNodup rest
 
 
+/-- what the writer holds afterwards: what it held before, then the encodings that succeeded, in order -/
+def okTrees : List (Res J) → List J
+  | [] => []
+  | .ok j :: rest => j :: okTrees rest
+  | _ :: rest => okTrees rest
+
+
 end GB.C09
